@@ -114,6 +114,20 @@ async def rescan_env_vars(workflow: Workflow, reporter: ReporterClient):
             new_fmt = fmt_env_value(new_value)
             await reporter("UPDATED", f"{name} {old_fmt} ➜ {new_fmt}")
 
+    # Detached steps are checked as well, silently.
+    # A detached step keeps its state and hash and returns to the workflow as it is
+    # when the step that created it runs again and declares it unchanged,
+    # so it would stay SUCCEEDED with outputs made with the old value of the variable.
+    sql = (
+        "SELECT node, label, name, value FROM env_var JOIN node ON env_var.node = node.i "
+        "WHERE node.detached"
+    )
+    async with workflow.db:
+        detached_env_var_uses = workflow.db.execute(sql).fetchall()
+    for node_i, label, name, old_value in detached_env_var_uses:
+        if os.getenv(name) != old_value:
+            steps_to_rerun[node_i] = Step(workflow, node_i, label)
+
     if len(steps_to_rerun) > 0:
         async with workflow.db:
             for step in steps_to_rerun.values():
